@@ -543,6 +543,7 @@ type GhostDecl struct {
 	Field   bool
 	Type    string // for fields: the Go type the field hangs off (informational)
 	Sort    string // SMT sort, or int/bool/string
+	Counter bool   // a ghost var that only ever grows: every havoc of it is constrained to be >= the old value
 	Default string // value at keys that denote objects not allocated yet ("" = unconstrained)
 }
 
@@ -780,7 +781,13 @@ func (sp *Specs) parseFile(path, pkgName string, lines []string) error {
 			}
 			switch parts[0] {
 			case "var":
-				sp.Ghosts[parts[1]] = &GhostDecl{Name: parts[1], Sort: strings.Join(parts[2:], " ")}
+				srt := parts[2:]
+				counter := false
+				if len(srt) > 1 && srt[len(srt)-1] == "counter" {
+					counter = true
+					srt = srt[:len(srt)-1]
+				}
+				sp.Ghosts[parts[1]] = &GhostDecl{Name: parts[1], Sort: strings.Join(srt, " "), Counter: counter}
 			case "field":
 				nm := parts[1]
 				ty := ""
